@@ -367,7 +367,13 @@ def _factory_sequence(ctx: Context, m: FuncInfo, _depth: int = 0) -> List[str]:
             if nm == "numpy.random.choice":
                 p = call_arg(c, 3, "p")
                 rep = call_arg(c, 2, "replace")
-                seq.append("resample(p=weights)" if p is not None and "weights" in norm_text(p) and (rep is None or const_value(rep) is True) else "resample(?)")
+                from ..dataflow import expr_leaves as _leaves
+
+                derives = False
+                if p is not None:
+                    lv, _v = _leaves(m.node, p, nd)
+                    derives = "weights" in norm_text(p) or any(l.kind == "param" and "weight" in l.text for l in lv)
+                seq.append("resample(p=weights)" if derives and (rep is None or const_value(rep) is True) else "resample(?)")
             for t in ctx.res.call_targets(m, c):
                 if isinstance(t, FuncInfo) and t.cls is None and t.name.startswith("fit_"):
                     seq.append("fit")
@@ -445,7 +451,8 @@ def rule_d(ctx: Context, R: Reporter):
             for d in idx_defs:
                 if d.value is None:
                     continue
-                for c in ast.walk(d.value):
+                dv = ExprResolver(m.node).resolve(d.value, d.node)
+                for c in ast.walk(dv):
                     if isinstance(c, ast.Compare) and len(c.ops) == 1 and isinstance(c.ops[0], ast.Eq):
                         names = {x.id for x in ast.walk(c) if isinstance(x, ast.Name)}
                         loopvars = {fl.cfg.nodes[h].stmt.target.id for h in d.node.loops if fl.cfg.nodes[h].kind == "for" and isinstance(fl.cfg.nodes[h].stmt.target, ast.Name)}
